@@ -63,10 +63,21 @@ type solveOut struct {
 }
 
 func runSolver(sp solverSpec, query string, timeout float64) solveOut {
-	ctx, cancel := context.WithTimeout(context.Background(), time.Duration((timeout+1.5)*float64(time.Second)))
+	return runSolverCtx(context.Background(), sp, query, timeout)
+}
+
+func runSolverCtx(parent context.Context, sp solverSpec, query string, timeout float64) solveOut {
+	ctx, cancel := context.WithTimeout(parent, time.Duration((timeout+1.5)*float64(time.Second)))
 	defer cancel()
 	cmd := exec.CommandContext(ctx, sp.argv[0], sp.argv[1:]...)
 	cmd.SysProcAttr = &syscall.SysProcAttr{Setpgid: true}
+	if strings.HasPrefix(sp.name, "cvc5") && strings.Contains(query, "((as const (Array (_ BitVec 64) Hash)) empty)") {
+		// cvc5 accepts only values as the argument of a constant array; `empty` is an uninterpreted constant:
+		// name the all-empty array and characterise it by an axiom instead
+		query = strings.ReplaceAll(query, "((as const (Array (_ BitVec 64) Hash)) empty)", "zeroHashArr!")
+		ax := "(declare-const zeroHashArr! (Array (_ BitVec 64) Hash))\n(assert (forall ((k!z (_ BitVec 64))) (! (= (select zeroHashArr! k!z) empty) :pattern ((select zeroHashArr! k!z)))))\n"
+		query = strings.Replace(query, "(declare-const empty Hash)\n", "(declare-const empty Hash)\n"+ax, 1)
+	}
 	cmd.Stdin = strings.NewReader(sp.pre + query)
 	var out bytes.Buffer
 	cmd.Stdout = &out
@@ -94,12 +105,16 @@ func runSolver(sp solverSpec, query string, timeout float64) solveOut {
 
 // solve runs the portfolio: z3 5.1 first, then cvc5 and z3 4.8 in parallel.
 func (p *solverPool) run(sp solverSpec, query string, timeout float64) solveOut {
+	return p.runCtx(context.Background(), sp, query, timeout)
+}
+
+func (p *solverPool) runCtx(ctx context.Context, sp solverSpec, query string, timeout float64) solveOut {
 	p.sem <- struct{}{}
 	defer func() { <-p.sem }()
 	if !p.deadline.IsZero() && time.Now().After(p.deadline) {
 		return solveOut{status: "unknown", solver: sp.name, out: "global budget exhausted"}
 	}
-	return runSolver(sp, query, timeout)
+	return runSolverCtx(ctx, sp, query, timeout)
 }
 
 func (p *solverPool) solve(query string, timeout float64) solveOut {
@@ -108,24 +123,34 @@ func (p *solverPool) solve(query string, timeout float64) solveOut {
 
 func (p *solverPool) solveP(query string, timeout float64, portfolio bool) solveOut {
 	sps := solvers(timeout)
-	r := p.run(sps[0], query, timeout)
+	// z3 5.1 decides almost everything it can decide within a few seconds: give it a short first slice, and only then
+	// start the whole portfolio (z3 5.1 with the full limit, cvc5, z3 4.8) side by side
+	first := timeout
+	if portfolio && first > 4 {
+		first = 4
+	}
+	r := p.run(solvers(first)[0], query, first)
 	p.account(r)
 	if r.status == "unsat" || r.status == "sat" || !portfolio {
 		return r
 	}
-	ch := make(chan solveOut, 2)
-	for _, sp := range sps[1:] {
+	rest := sps[1:]
+	if first < timeout {
+		rest = sps
+	}
+	ch := make(chan solveOut, len(rest))
+	ctx, cancel := context.WithCancel(context.Background())
+	defer cancel() // the first decisive answer stops the other solvers
+	for _, sp := range rest {
 		sp := sp
-		go func() { ch <- p.run(sp, query, timeout) }()
+		go func() { ch <- p.runCtx(ctx, sp, query, timeout) }()
 	}
 	best := r
-	for i := 0; i < 2; i++ {
+	for i := 0; i < len(rest); i++ {
 		o := <-ch
 		p.account(o)
 		if o.status == "unsat" || o.status == "sat" {
-			if best.status != "unsat" && best.status != "sat" {
-				best = o
-			}
+			return o
 		} else if best.status == "unknown" && o.status == "error" && best.out == "" {
 			best = o
 		}
